@@ -8,8 +8,6 @@ therefore assembled from `rfl`-checked calls of the non-recursive pieces and the
 namespace Knut.Syntax
 open Knut.Utf8
 
-/-- the token of an ASCII character -/
-def tk (r : Nat) : Tok := ⟨r, [UInt8.ofNat r]⟩
 /-- tokens of an ASCII string -/
 def toksOf (s : String) : List Tok := s.toList.map (fun c => tk c.toNat)
 /-- bytes of an ASCII string -/
